@@ -785,6 +785,49 @@ class Folder:
         raise Undecidable("binary op " + op)
 
 
+class Token(str):
+    """an opaque value standing for an object the fold does not look into"""
+
+
+def call_trace(facts, fn, env, watch, local_calls=0):
+    """fold the (loop-free) body of `fn` under `env`, treating every call the folder has no model for as an opaque value,
+    and return the sequence of watched calls [(name suffix, folded args)] in execution order (plus the result).
+    Used for small dispatch functions whose behaviour is a finite decision table over flags / options."""
+    b = facts.thir.get(fn)
+    trace = []
+
+    def on_call(folder, c):
+        cc = canon(callee_of(c))
+        for w in watch:
+            if cc.endswith(w):
+                args = []
+                for a in c["args"]:
+                    try:
+                        args.append(folder.fold(a))
+                    except Undecidable:
+                        args.append(Token("?"))
+                trace.append((w, args))
+                return Token(w + "()")
+        r = folder._builtin(c)
+        if r is not NotImplemented:
+            return r
+        if folder.local_calls > 0:
+            r = folder._local_call(c)
+            if r is not NotImplemented:
+                return r
+        if cc.startswith("core::panicking") or "panic" in cc.split("::")[-1]:
+            return NotImplemented
+        for a in c["args"]:
+            try:
+                folder.fold(a)          # arguments are still evaluated (their watched calls count)
+            except Undecidable:
+                pass
+        return Token(cc.split("::")[-1] + "()")
+    fo = Folder(facts, env=dict(env), on_call=on_call, effects=True, local_calls=local_calls)
+    res = fo.run(b["body"])
+    return trace, res
+
+
 def find_fn(facts, name):
     b = facts.thir.get(name)
     if b is None:
@@ -903,6 +946,22 @@ def _passes_error(ret, name):
     return v.get("k") in ("Var", "Upvar") and v["name"] == name
 
 
+def _wrapped_error(ret, name):
+    """ret is `Err(F(name))` for a one-argument constructor or function F: the path of F, else None"""
+    if ret.get("k") != "Adt" or ret.get("variant") != "Err" or name is None:
+        return None
+    v = strip(ret["fields"][0]["expr"])
+    if v.get("k") == "Adt" and len(v["fields"]) == 1 and "base" not in v:
+        a = strip(v["fields"][0]["expr"])
+        if a.get("k") in ("Var", "Upvar") and a["name"] == name:
+            return canon(v["adt"]) + "::" + v["variant"]
+    if v.get("k") == "Call" and len(v["args"]) == 1:
+        a = strip(v["args"][0])
+        if a.get("k") in ("Var", "Upvar") and a["name"] == name:
+            return canon(callee_of(v))
+    return None
+
+
 def try_like(scrut, good, good_body, bad, bad_body, lets, depth=40):
     """`match X { Ok(v) => v, Err(e) => return Err(e) }` and its Option / unit / fresh-error variants, as the sx of the
     equivalent `?` expression; None if the two arms are anything else"""
@@ -922,6 +981,9 @@ def try_like(scrut, good, good_body, bad, bad_body, lets, depth=40):
     x = sx(scrut, lets, depth - 1)
     if _passes_error(ret, b[1]):
         return ("try", x)
+    w = _wrapped_error(ret, b[1])
+    if w is not None:
+        return ("try", ("call", "core::result::Result::map_err", (x, ("fn", w))))
     if ret.get("k") == "Adt" and ret.get("variant") == "Err" and b[1] is None:
         err = sx(ret["fields"][0]["expr"], lets, depth - 1)
         if g[0] == "Some":
@@ -935,6 +997,14 @@ def match_as_try(e, lets, depth=40):
     if e.get("k") == "Match" and len(e["arms"]) == 2 and not any("guard" in a for a in e["arms"]):
         a0, a1 = e["arms"]
         for good, bad in ((a0, a1), (a1, a0)):
+            g, b = _variant_pat(good["pat"]), _variant_pat(bad["pat"])
+            if g and b and (g[0], b[0]) == ("Ok", "Err") and g[1] not in (None, "()"):
+                gb = strip(good["body"])
+                if gb.get("k") == "Adt" and gb.get("variant") == "Ok" and len(gb["fields"]) == 1:
+                    gv = strip(gb["fields"][0]["expr"])
+                    w = _wrapped_error(strip(bad["body"]), b[1])
+                    if gv.get("k") in ("Var", "Upvar") and gv["name"] == g[1] and w is not None:
+                        return ("call", "core::result::Result::map_err", (sx(e["scrut"], lets, depth - 1), ("fn", w)))
             r = try_like(e["scrut"], good["pat"], good["body"], bad["pat"], bad["body"], lets, depth)
             if r is not None:
                 return r
@@ -1163,7 +1233,9 @@ def stmts(e, lets=None):
                     out.append(("let", p["name"], mut, sx(st["init"], lets), span_str(st["span"])))
                 else:
                     init = sx(st["init"], lets) if "init" in st else None
-                    if "init" in st and "else" not in st and not lets.get("__noinline__") and _inlinable(st["init"]):
+                    if "init" in st and "else" not in st and _inlinable(st["init"]) and (not lets.get("__noinline__") or _is_place(st["init"])):
+                        # (with inlining switched off, a destructured *place* - `let Self { a, b } = self` - is still
+                        # only a renaming of its fields)
                         d = {}
                         if destructure(p, st["init"], d):
                             lets.update(d)
@@ -1264,6 +1336,13 @@ def _forward_single_use(out):
     return out
 
 
+def _is_place(e):
+    e = strip(e)
+    while e.get("k") == "Field":
+        e = strip(e["lhs"])
+    return e.get("k") in ("Var", "Upvar")
+
+
 def _inlinable(init):
     """only side-effect free, branch-free initialisers are inlined at their uses"""
     for n in walk(init):
@@ -1360,6 +1439,20 @@ def fn_stmts_deep(facts, name, depth=2, only=None):
                     seen.add(c)
                     todo.append((c, d - 1))
     return out
+
+
+def let_values(sts):
+    """{short name: sx} of the immutable plain lets of a statement list (top level), for rules that run without
+    let-inlining but still want to look through a hoisted pure local"""
+    return {s[1].split("#")[0]: s[3] for s in sts if s[0] == "let" and not s[2]}
+
+
+def look_through(x, env, depth=4):
+    """replace a variable bound by an immutable let (see let_values) by its value, repeatedly"""
+    while depth > 0 and isinstance(x, tuple) and x and x[0] == "var" and x[1] in env:
+        x = env[x[1]]
+        depth -= 1
+    return x
 
 
 # ---- polynomial normal form for index arithmetic -----------------------------------------------
